@@ -812,8 +812,25 @@ func ruleParserNumbersChecked(c *Ctx, rid string, scope []*ssa.Function) {
 func nullOnlyForNegative(c *Ctx, rid string) {
 	scope := c.P.parserScope()
 	nsset := scopeSet(scope)
+	// only where a declared length of 0 still has a body to read: the function that reads the bulk
+	// body, and the functions that call it (an array of 0 elements has none: *0 and *-1 may share a way)
+	body, _ := bulkBody(c)
+	if body == nil {
+		return
+	}
+	readsBulk := map[*ssa.Function]bool{body: true}
+	for _, f := range scope {
+		for _, cal := range calleesIn(f) {
+			if cal == body {
+				readsBulk[f] = true
+			}
+		}
+	}
 	n := 0
 	for _, f := range scope {
+		if !readsBulk[f] {
+			continue
+		}
 		ord := 0
 		allInstrs(f, func(ins ssa.Instruction) {
 			iff, ok := ins.(*ssa.If)
@@ -902,7 +919,7 @@ func nullOnlyForNegative(c *Ctx, rid string) {
 		})
 	}
 	c.count("wire-length-tests", n)
-	c.floor("wire-length-tests", 2)
+	c.floor("wire-length-tests", 1)
 }
 
 // ruleReverseByBody (mechanical sweep: either sign of `(l - i - 1) - (step - 1) + j` flipped in
